@@ -114,10 +114,10 @@ func gridNormal(run *evid.Run, thorough bool, deadline time.Time) {
 	for ci := range cfgsA {
 		for si, sv := range svs {
 			add(1, allClasses(), ci, sv)
-			// the full 60x60 two-file grid on the first layout of each kind
-			// (quick: only without restart); reduced classes elsewhere.
-			full := thorough || si == 0
-			if full {
+			// thorough: the full 60x60 two-file grid on the four main layouts;
+			// quick: only for the TTI+TTL config on the first and last layout;
+			// reduced classes elsewhere.
+			if (thorough && si < 4) || (cfgsA[ci].name == "tti+ttl" && (si == 0 || si == len(svs)-1)) {
 				add(2, allClasses(), ci, sv)
 			} else {
 				add(2, reducedClasses, ci, sv)
@@ -161,7 +161,7 @@ func gridNormal(run *evid.Run, thorough bool, deadline time.Time) {
 	for k, v := range counters {
 		run.Set("gridA_"+k, v)
 	}
-	if done > 0 && (counters["persisted_files_that_were_idle_or_expired"] == 0 || counters["unprotected_removed"] == 0 || counters["unprotected_kept"] == 0) {
+	if done > 0 && run.NViolations() == 0 && (counters["persisted_files_that_were_idle_or_expired"] == 0 || counters["unprotected_removed"] == 0 || counters["unprotected_kept"] == 0) {
 		run.Fatal(fmt.Errorf("grid A vacuous: %v", counters))
 	}
 }
@@ -389,7 +389,7 @@ func gridPolicy(run *evid.Run, thorough bool, deadline time.Time) {
 	for k, v := range counters {
 		run.Set("gridB_"+k, v)
 	}
-	if done > 0 && (counters["order_constraints_checked"] == 0 || counters["partial_deletions"] == 0) {
+	if done > 0 && run.NViolations() == 0 && (counters["order_constraints_checked"] == 0 || counters["partial_deletions"] == 0) {
 		run.Fatal(fmt.Errorf("grid B vacuous (the order was never observable): %v", counters))
 	}
 }
